@@ -49,7 +49,8 @@ SPEC = {
     'nn.jit compares module fingerprints by equality of the fingerprint tuples (after the repair cfc8239; before, by hash only): attribute values that are == (1, True, 1.0) share a trace, as for JAX static arguments',
     'cond/switch/while_loop bodies draw no rngs (tracing every branch / the loop body once advances the shared counters; not promised by the property)',
     'lifted control flow is compared with Python control flow on the domain where JAX can trace it: every branch traces without error and with one tree structure; the loop body preserves the carry structure (documented in lift.cond / lift.while_loop)',
-    'one scope tree leaf per transformed module (no Module or Variable passed as attribute or argument); child scopes of that module at any depth are modelled by path-prefixed variable names and path-keyed counters (inChild / inPath / rngAt; theorems pack_transparent_child, pack_transparent_path); the reference sharing between a bound descendant Scope and the nested variable dicts (the in-place merge of put_variable) is NOT modelled (variables are values in the model) and is tied by the deepchild implementation oracle (depth 1-3) only; rng counters are modelled by reference one level deep (counter_delta_restore)',
+    'several scopes: which scopes a lifted Linen transform collects from a module holding bound sub-modules / Variables as dataclass attributes and how it hands the inner scopes back (get_module_scopes / set_module_scopes, attribute part; theorems set_get_module_scopes_id, get_module_scopes_order_spec, dict_flatten_order, decl_order_variant_swaps_siblings) and _dedup_scopes / _dup_scopes (dup_dedup_id) are modelled in lean/Flax/Model/ModScopes.lean and tied by the modscopes correspondence, which calls the real functions on generated module trees; the contents of pack over several scopes (per-scope groups, _transpose) and Module / Variable values passed as method ARGUMENTS (get_arg_scope) are not modelled (attrmods / multiscope implementation oracles only)',
+    'pack itself is modelled on one scope (the own scope of the transformed module); child scopes of that module at any depth are modelled by path-prefixed variable names and path-keyed counters (inChild / inPath / rngAt; theorems pack_transparent_child, pack_transparent_path); the reference sharing between a bound descendant Scope and the nested variable dicts (the in-place merge of put_variable) is NOT modelled (variables are values in the model) and is tied by the deepchild implementation oracle (depth 1-3) only; rng counters are modelled by reference one level deep (counter_delta_restore)',
   ],
   'model_partial': [
     'counter_delta_restore_partial (flat, single stream) is kept for the path-keyed `restoreCounters` the driver executes; the general statement is now proved as counter_delta_restore over the counter heap (nested dicts shared by reference, any number of streams and children, one level of nesting); deeper nesting than one child level and the equivalence flat-keys <-> heap are not proved (tied by the setup-child correspondence)',
@@ -763,6 +764,9 @@ def check_ctrl_case(ctx, drv, case):
   if kind == 'switch':
     ctx.count('switch_index', 'neg' if case['index'] < 0 else ('over' if case['index'] >= len(case['branches']) else 'in'))
   pl, li = obs['plain'], obs['lifted']
+  if kind == 'while' and lp.fn_wcols(case['cond_fn']) and 'error' not in li:
+    ctx.violation('while-cond-write-accepted', f'nn.while_loop: the condition function writes to {lp.fn_wcols(case["cond_fn"])} but its scope is immutable by construction (mutable_filter=False); the lifted loop did not raise and returned {li} on {json.dumps(case)[:700]}', case)
+    return
   if dom:
     if pl.get('error') != li.get('error'):
       ctx.violation(f'{kind}-outcome-differs', f'nn.{kind}: {li.get("error", "ok")} vs Python control flow {pl.get("error", "ok")} on {json.dumps(case)[:700]}', case)
@@ -991,7 +995,8 @@ def gen_ctrl_case(rng, kind):
     remaining = {'add': [{'lit': limit}, {'mul': [{'lit': -1}, {'reg': 0}]}]}
     budget = {'add': [{'lit': 8}, {'mul': [{'lit': -1}, {'arg': len(args)}]}]}
     case['cond_fn'] = {'body': [['get', cc, 'n']], 'ret': [{'mul': [remaining, budget]}]}
-    if not valid and rng.random() < 0.3:
+    if rng.random() < (0.3 if not valid else 0.12):
+      # the loop condition runs on a scope with mutable_filter=False: a write there must raise
       case['cond_fn']['body'].append(['put', cc, 'a', {'lit': 1}])
   return case
 
@@ -1597,6 +1602,207 @@ def gen_attrmods_case(rng):
 
 
 # ------------------------------------------------------------------------------------------------
+# multi-scope lifting: the REAL get_module_scopes / set_module_scopes / _dedup_scopes / _dup_scopes vs the Lean model
+# ------------------------------------------------------------------------------------------------
+
+
+def check_modscopes_case(ctx, drv, case):
+  """A generated module tree (dataclass fields in a permuted declaration order; values are nested dicts / lists of bound
+  sub-modules — some shared between several attributes —, inline-created modules, inner modules holding sub-modules
+  themselves, plain values) is built on the real flax inside a parent's compact method.  `get_module_scopes` is called on
+  it, `set_module_scopes` is handed fresh scopes s0, s1, …; the collected scope paths and the scope every rebuilt
+  sub-module ends up with are compared with the model (`getOwners` / `setAssign`) and with the property itself (every
+  sub-module gets the scope standing where its own scope was collected).  Then a scope list with duplicates and
+  ancestor/descendant pairs goes through the real `_dedup_scopes` / `_dup_scopes` and the model's."""
+  from flax.linen import transforms as T
+  from flax.core import lift as core_lift, scope as core_scope
+
+  class Leaf(nn.Module):
+    @nn.compact
+    def __call__(self, x):
+      return x
+
+  lp.KEEP_ALIVE.append(Leaf)
+  rec = {}
+
+  def mk_outer(names):
+    O = type('OuterMS', (nn.Module,), {'__annotations__': {n: typing.Any for n in names}, '__call__': lambda self, x: x})
+    lp.KEEP_ALIVE.append(O)
+    return O
+
+  def parent_call(self, x):
+    subs = [Leaf(name=f'sub{i}') for i in range(case['nsubs'])]
+    for m in subs:
+      m(x)
+
+    def build(spec):
+      k = spec[0]
+      if k == 'sub':
+        return subs[spec[1]]
+      if k == 'fresh':
+        return Leaf()
+      if k == 'int':
+        return 7
+      if k == 'dict':
+        return {key: build(v) for key, v in spec[1]}
+      if k == 'list':
+        return [build(v) for v in spec[1]]
+      names = [n for n, _ in spec[1]]
+      return mk_outer(names)(**{n: build(v) for n, v in spec[1]})
+
+    names = [n for n, _ in case['fields']]
+    outer = mk_outer(names)(**{n: build(v) for n, v in case['fields']}, name='outer')
+    outer(x)
+    scopes, _, _ = T.get_module_scopes(outer)
+    rec['get'] = [tuple(sc.path) for sc in scopes]
+    ids, sidx = {}, {}
+
+    def walk(v, rebuilt=None, pairs=None):
+      if isinstance(v, nn.Module):
+        sc = None
+        if v.scope is not None:
+          sc = sidx.setdefault(tuple(v.scope.path), len(sidx))
+        if pairs is not None and rebuilt.scope is not None:
+          pairs.append((ids.setdefault(v._id, len(ids)), tuple(rebuilt.scope.path)))
+        fs = []
+        for f in dataclasses.fields(v):
+          if f.name in ('parent', 'name') or not f.init:
+            continue
+          fs.append([f.name, walk(getattr(v, f.name), getattr(rebuilt, f.name) if rebuilt is not None else None, pairs)])
+        return {'mod': [ids.setdefault(v._id, len(ids)), sc, fs]}
+      if hasattr(v, 'items'):
+        return {'dict': [[k, walk(x, rebuilt[k] if rebuilt is not None else None, pairs)] for k, x in v.items()]}
+      if isinstance(v, (list, tuple)):
+        return {'seq': [walk(x, rebuilt[i] if rebuilt is not None else None, pairs) for i, x in enumerate(v)]}
+      return 'other'
+
+    rec['node'] = walk(outer)
+    rec['scope_of_index'] = {i: p for p, i in sidx.items()}
+    root = core_scope.Scope({}, mutable=True)
+    fresh = [root.push(f's{i}') for i in range(len(scopes))]
+    rebuilt, _, _ = T.set_module_scopes(outer, (), {}, fresh)
+    pairs = []
+    walk(outer, rebuilt, pairs)
+    rec['pairs'] = pairs
+    return x
+
+  P = type('ParentMS', (nn.Module,), {'__call__': nn.compact(parent_call)})
+  lp.KEEP_ALIVE.append(P)
+  r = lp.call(lambda: P().apply({}, I(1)))
+  ctx.case(case)
+  ctx.count('transform', 'modscopes')
+  if r[0] != 'ok':
+    from harness.common import InfraError
+
+    raise InfraError(f'modscopes generator degenerated: {r} on {json.dumps(case)}')
+  ctx.count('modscopes_nscopes', len(rec['get']))
+  where = json.dumps(case)
+  # ---- property oracle: every rebuilt sub-module sits on the scope handed at the position of its own scope ---------
+  own = {}
+  for node_id, new_path in rec['pairs']:
+    own.setdefault(node_id, set()).add(new_path)
+  # the original scope path of each module id
+  orig = {}
+
+  def collect(n):
+    if isinstance(n, dict) and 'mod' in n:
+      if n['mod'][1] is not None:
+        orig[n['mod'][0]] = rec['scope_of_index'][n['mod'][1]]
+      for _, c in n['mod'][2]:
+        collect(c)
+    elif isinstance(n, dict) and 'dict' in n:
+      for _, c in n['dict']:
+        collect(c)
+    elif isinstance(n, dict) and 'seq' in n:
+      for c in n['seq']:
+        collect(c)
+
+  collect(rec['node'])
+  for node_id, news in own.items():
+    want = {(f's{k}',) for k, p in enumerate(rec['get']) if p == orig[node_id]}
+    if len(news) != 1 or not (news <= want):
+      ctx.violation('modscopes-rebound-to-foreign-scope', f'set_module_scopes(m, get_module_scopes(m)): the sub-module originally on scope {orig[node_id]} was rebuilt on {sorted(news)}; its own scope was collected at position(s) {sorted(want)} of {rec["get"]} on {where}', case)
+      return
+  # ---- model ---------------------------------------------------------------------------------------------------------
+  outs = drv.run([('ms_get', [rec['node'], True]), ('ms_set', [rec['node'], list(range(len(rec['get'])))])])
+  if outs[0][0] != 'ok' or outs[1][0] != 'ok':
+    ctx.disagreements_checked += 1
+    ctx.violation('modscopes-model-driver', f'driver: {outs}', case, concrete=False)
+    return
+  m_get = [rec['scope_of_index'][o[2]] for o in outs[0][1]]
+  if m_get != rec['get']:
+    ctx.disagreements_checked += 1
+    ctx.violation('modscopes-model-mismatch-get', f'get_module_scopes: implementation {rec["get"]} vs model {m_get} on {where}', case, concrete=False)
+    return
+  m_asg = {a[0][1]: (f's{a[1]}',) for a in outs[1][1]['asg'] if a[0][0] == 'm' and a[1] is not None}
+  i_asg = {i: next(iter(v)) for i, v in own.items()}
+  if not outs[1][1]['ok'] or m_asg != i_asg:
+    ctx.disagreements_checked += 1
+    ctx.violation('modscopes-model-mismatch-set', f'set_module_scopes: implementation {i_asg} vs model {m_asg} (count ok: {outs[1][1]["ok"]}) on {where}', case, concrete=False)
+    return
+  # ---- _dedup_scopes / _dup_scopes -----------------------------------------------------------------------------------
+  root = core_scope.Scope({}, mutable=True)
+
+  def scope_at(path):
+    sc = root
+    for nm in path:
+      sc = sc.push(nm, reuse=True)
+    return sc
+
+  listed = [scope_at(p) for p in case['dedup']]
+  rr = lp.call(lambda: core_lift._dedup_scopes(listed))
+  if rr[0] != 'ok':
+    ctx.violation('dedup-raises', f'_dedup_scopes raised {rr[1]} on {case["dedup"]}', case)
+    return
+  roots, entries = rr[1]
+  i_roots = [list(sc.path) for sc in roots]
+  i_entries = [[list(sc.path), list(p)] for sc, p in entries]
+  root2 = core_scope.Scope({}, mutable=True)
+  new_roots = [root2.push(f'R{i}') for i in range(len(roots))]
+  dup = lp.call(lambda: [list(sc.path) for sc in core_lift._dup_scopes(roots, new_roots, entries)])
+  want_dup = [[f'R{i_roots.index(r)}'] + p for r, p in i_entries] if all(r in i_roots for r, _ in i_entries) else None
+  if [r + p for r, p in i_entries] != [list(p) for p in case['dedup']] or dup != ('ok', want_dup):
+    ctx.violation('dedup-dup-not-inverse', f'_dup_scopes(_dedup_scopes({case["dedup"]})): roots {i_roots}, entries {i_entries}, duplicated {dup} (expected {want_dup})', case)
+    return
+  md = drv.run([('dedup', [[list(p) for p in case['dedup']]])])[0]
+  if md[0] != 'ok' or md[1]['roots'] != i_roots or md[1]['entries'] != i_entries:
+    ctx.disagreements_checked += 1
+    ctx.violation('dedup-model-mismatch', f'_dedup_scopes({case["dedup"]}): implementation roots {i_roots} entries {i_entries} vs model {md}', case, concrete=False)
+
+
+def gen_modscopes_case(rng):
+  nsubs = rng.randrange(2, 5)
+
+  def leaf():
+    r = rng.random()
+    if r < 0.6:
+      return ['sub', rng.randrange(nsubs)]
+    if r < 0.75:
+      return ['fresh']
+    return ['int']
+
+  def value(depth):
+    r = rng.random()
+    if depth > 0 and r < 0.25:
+      ks = rng.sample(['y', 'x', 'm', 'b', 'a'], rng.randrange(1, 4))
+      return ['dict', [[k, value(depth - 1)] for k in ks]]
+    if depth > 0 and r < 0.45:
+      return ['list', [value(depth - 1) for _ in range(rng.randrange(1, 4))]]
+    if depth > 0 and r < 0.6:
+      names = list(rng.choice(ATTR_NAME_POOLS))
+      rng.shuffle(names)
+      return ['outer', [[n, value(depth - 1)] for n in names]]
+    return leaf()
+
+  names = list(rng.choice(ATTR_NAME_POOLS))
+  rng.shuffle(names)
+  fields = [[n, value(2)] for n in names]
+  pool = [['a'], ['a', 'b'], ['a', 'b', 'c'], ['a', 'd'], ['z'], ['z', 'y'], [], ['q', 'r']]
+  dedup = [rng.choice(pool) for _ in range(rng.randrange(1, 6))]
+  return {'kind': 'modscopes', 'nsubs': nsubs, 'fields': fields, 'dedup': dedup}
+
+
+# ------------------------------------------------------------------------------------------------
 # finding B2: a jitted *method* that creates auto-named sub-modules, called twice in one compact method
 # ------------------------------------------------------------------------------------------------
 
@@ -1733,6 +1939,8 @@ def run_case(ctx, drv, case):
     check_multimethod_case(ctx, case)
   elif k == 'attrmods':
     check_attrmods_case(ctx, case)
+  elif k == 'modscopes':
+    check_modscopes_case(ctx, drv, case)
   else:
     ctx.notes.append(f'unknown corpus case kind {k}')
 
@@ -1745,7 +1953,7 @@ def run(ctx):
     ctx.corpus_replayed += 1
     run_case(ctx, drv, obj.get('case', obj))
   scale = 12 if thorough else 1
-  plan = [('attrmods', 12), ('multimethod', 10), ('deepchild', 14), ('setupchild', 12), ('autoname', 10), ('history', 30), ('jit', 26), ('remat', 36), ('mapvars', 32), ('cond', 32), ('switch', 28), ('while', 28)]
+  plan = [('modscopes', 40), ('attrmods', 12), ('multimethod', 10), ('deepchild', 14), ('setupchild', 12), ('autoname', 10), ('history', 30), ('jit', 26), ('remat', 36), ('mapvars', 32), ('cond', 32), ('switch', 28), ('while', 28)]
   cases = []
   for what, n in plan:
     for _ in range(n * scale):
@@ -1763,6 +1971,8 @@ def run(ctx):
         cases.append(gen_multimethod_case(rng))
       elif what == 'attrmods':
         cases.append(gen_attrmods_case(rng))
+      elif what == 'modscopes':
+        cases.append(gen_modscopes_case(rng))
       else:
         cases.append(gen_ctrl_case(rng, what))
   for case in cases:
